@@ -827,8 +827,14 @@ pub(crate) fn keywords_directive(s: Span) -> IResult<Span, KeywordsDirective> {
     let (s, a) = symbol("`")(s)?;
     let (s, b) = keyword("begin_keywords")(s)?;
     let (s, c) = symbol("\"")(s)?;
+    let version = *s.fragment();
     let (s, d) = version_specifier(s)?;
     let (s, e) = symbol("\"")(s)?;
+    // the region opens behind the closing quote
+    begin_keywords_region(
+        &version[..d.nodes.0.nodes.0.len],
+        e.nodes.0.offset + e.nodes.0.len,
+    );
     Ok((
         s,
         KeywordsDirective {
@@ -841,38 +847,14 @@ pub(crate) fn keywords_directive(s: Span) -> IResult<Span, KeywordsDirective> {
 #[packrat_parser]
 pub(crate) fn version_specifier(s: Span) -> IResult<Span, VersionSpecifier> {
     let (s, a) = alt((
-        map(keyword("1800-2017"), |x| {
-            begin_keywords("1800-2017");
-            x
-        }),
-        map(keyword("1800-2012"), |x| {
-            begin_keywords("1800-2012");
-            x
-        }),
-        map(keyword("1800-2009"), |x| {
-            begin_keywords("1800-2009");
-            x
-        }),
-        map(keyword("1800-2005"), |x| {
-            begin_keywords("1800-2005");
-            x
-        }),
-        map(keyword("1364-2005"), |x| {
-            begin_keywords("1364-2005");
-            x
-        }),
-        map(keyword("1364-2001-noconfig"), |x| {
-            begin_keywords("1364-2001-noconfig");
-            x
-        }),
-        map(keyword("1364-2001"), |x| {
-            begin_keywords("1364-2001");
-            x
-        }),
-        map(keyword("1364-1995"), |x| {
-            begin_keywords("1364-1995");
-            x
-        }),
+        keyword("1800-2017"),
+        keyword("1800-2012"),
+        keyword("1800-2009"),
+        keyword("1800-2005"),
+        keyword("1364-2005"),
+        keyword("1364-2001-noconfig"),
+        keyword("1364-2001"),
+        keyword("1364-1995"),
     ))(s)?;
     Ok((s, VersionSpecifier { nodes: (a,) }))
 }
@@ -882,6 +864,6 @@ pub(crate) fn version_specifier(s: Span) -> IResult<Span, VersionSpecifier> {
 pub(crate) fn endkeywords_directive(s: Span) -> IResult<Span, EndkeywordsDirective> {
     let (s, a) = symbol("`")(s)?;
     let (s, b) = keyword("end_keywords")(s)?;
-    end_keywords();
+    end_keywords_region(b.nodes.0.offset + b.nodes.0.len);
     Ok((s, EndkeywordsDirective { nodes: (a, b) }))
 }
